@@ -5,6 +5,7 @@
 import Pongo.Model.Sets
 import Pongo.Gen.BanSites
 import Pongo.Lemmas.ParseAll
+import Pongo.Lemmas.TagsAll
 
 namespace Pongo.C03
 
@@ -172,6 +173,37 @@ theorem accepted_filter_parameter_has_no_banned_filter (cfg : SetCfg) (toks : Li
     ExprAll (fun name => cfg.bannedFilters.elem name = false) param :=
   ((allParse cfg toks (Q := fun name => cfg.bannedFilters.elem name = false) (fun _ hx => hx.2.1) fuel).parseFilter _
     (Good.ofList toks) _ h).1.2.2 param rfl
+
+/-! ### no route through the document grammar: the whole compiled world is free of banned tags
+
+From the document-parser-wide induction of `Lemmas/TagsAll.lean` (eight mutual functions, the
+twenty-three tag parsers, every fuel; nothing assumed about the sources): every tag node of every
+template a compilation produces — the template itself, tag bodies at any depth, block bodies, macro
+bodies, and every template that `extends` / `include` / `import` / `ssi … parsed` compile from the
+loaders on the way — has a name that is registered and *not banned*. -/
+
+/-- the admission test of `parseTag` -/
+def TagAdmitted (cfg : SetCfg) (name : Bytes) : Prop := cfg.regTags.elem name = true ∧ cfg.bannedTags.elem name = false
+
+/-- **A banned tag is in no compiled tree, at any depth, in any template reached.** -/
+theorem compiled_world_has_no_banned_tag (T : LexTables) (cfg : SetCfg) (fuel : Nat) (cs cs' : CState) (name src : Bytes)
+    (isString : Bool) (ti : Nat) (hw : WorldTags (TagAdmitted cfg) cs)
+    (h : compileTpl T cfg fuel cs name isString src = .ok (ti, cs')) : WorldTags (TagAdmitted cfg) cs' :=
+  (allDocT T cfg (Tg := TagAdmitted cfg) (fun _ h1 h2 => ⟨h1, h2⟩) fuel).compileTpl cs name isString src hw _ h
+
+/-- … starting from nothing: whatever `FromString` / `FromFile` compile -/
+theorem compiled_from_scratch_has_no_banned_tag (T : LexTables) (cfg : SetCfg) (fuel : Nat) (cs' : CState) (name src : Bytes)
+    (isString : Bool) (ti : Nat) (h : compileTpl T cfg fuel {} name isString src = .ok (ti, cs')) :
+    WorldTags (TagAdmitted cfg) cs' :=
+  compiled_world_has_no_banned_tag T cfg fuel {} cs' name src isString ti worldTags_empty h
+
+/-- what the statement says for one banned name: no node of that tag anywhere (here: `for`) -/
+theorem banned_for_tag_is_nowhere (cfg : SetCfg) (hb : cfg.bannedTags.elem b!"for" = true) (n : Node)
+    (hn : TagsOK (TagAdmitted cfg) n) : ∀ k v o r s b e, n ≠ .tagFor k v o r s b e := by
+  intro k v o r s b e he
+  subst he
+  cases hn with
+  | tagFor _ _ _ _ _ _ _ ht _ _ => rw [ht.2] at hb; cases hb
 
 /-! ### the code's lookup sites (regenerated from /repo) -/
 
